@@ -144,6 +144,11 @@ def run(rep, tier):
             check_derivative(e, k)
         for k in (range(9) if tier == "thorough" else (0, 2, 8)):
             check_derivative(e, k, seg=True)
+    from props.c15 import STRUCT_SIZES_QUICK, STRUCT_SIZES_THOROUGH
+    from props.struct_obl import structural_obligations
+    structural_obligations(e, ["deriv"], STRUCT_SIZES_QUICK if tier == "quick" else STRUCT_SIZES_THOROUGH, "pw-derivative-structure",
+                           segment_level_ops=("deriv",))
+    rep.bounds["piecewise_segments"] = "1..4 (Kani); MIR structure encoding %s (thorough to 1000)" % STRUCT_SIZES_QUICK
     e.finish()
     e1_part(rep, tier)
 
@@ -161,5 +166,9 @@ def replay(path):
     if path.endswith(".rs"):
         from props.e1util import replay_cmd
         return replay_cmd(path)
+    import json
+    if json.load(open(path)).get("kind") == "E2-native-structural":
+        from props.struct_obl import replay_file
+        return replay_file(path)
     from props.c07 import replay as r7
     return r7(path)
